@@ -23,6 +23,7 @@ USERNAMES = {'u1': 'alice', 'u2': 'bob b'}
 FLAG_PERMS = [('R', 'F', 'T'), ('F', 'T', 'R'), ('T', 'R', 'F'), ('R', 'T', 'F'), ('F', 'R', 'T'), ('T', 'F', 'R')]
 DRAIN_S = 700.0          # final phase: longer than the longest retry delay
 LATENCY = 0.001          # server -> client delivery delay (an answer never overtakes the code that waits for it)
+PROMPT_S = 5.0           # the scripted server answers an AddUser within this time or not at all (no late answers)
 
 
 # ---------------------------------------------------------------------------
@@ -69,6 +70,7 @@ class Rig:
         self.events: list[dict] = []
         self.armed: list[dict] = []
         self.open_attempt: dict[str, bool] = {}
+        self.open_since: dict[str, float] = {}
         self.retry_deadline: dict[str, float] = {}
         self.auto_reply = False
         self.fail_next_frame = False
@@ -95,9 +97,14 @@ class Rig:
         return None
 
     def flag(self, f):
+        """f = one or several abstract reasons ('R', 'RF', ...) -> the TrackingFlag (combination)"""
         from aioslsk.user.model import TrackingFlag
-        real = dict(zip(('R', 'F', 'T'), self.flagperm))[f]
-        return {'R': TrackingFlag.REQUESTED, 'F': TrackingFlag.FRIEND, 'T': TrackingFlag.TRANSFER}[real]
+        m = {'R': TrackingFlag.REQUESTED, 'F': TrackingFlag.FRIEND, 'T': TrackingFlag.TRANSFER}
+        ren = dict(zip(('R', 'F', 'T'), self.flagperm))
+        out = TrackingFlag(0)
+        for c in f:
+            out |= m[ren[c]]
+        return out
 
     def flagnames(self, value):
         from aioslsk.user.model import TrackingFlag
@@ -169,6 +176,7 @@ class Rig:
                     self.rec(ev='frame', u=u, k=kind[0])
                     if kind[0] == 'add':
                         self.open_attempt[u] = True
+                        self.open_since[u] = self.loop.time()
                     else:
                         self.open_attempt[u] = False
                 elif u is None:
@@ -228,6 +236,8 @@ class Rig:
         sess = self.srv.sessions[-1] if self.srv.sessions else None
         if sess is None or sess.closed or self.link.dead:
             return False
+        if self.loop.time() - self.open_since.get(u, self.loop.time()) > PROMPT_S:
+            return False      # too late to count as an answer: this attempt stays unanswered
         self.open_attempt[u] = False
         self.busy_until = self.loop.time() + LATENCY
         self.rec(ev='reply', u=u, exists=bool(exists))
@@ -241,9 +251,9 @@ class Rig:
     async def _call(self, u, op, f):
         if self.closing:
             return
-        self.rec(ev='call', u=u, op=op, f=f)
+        self.rec(ev='call', u=u, op=op, f=sorted(f))
         try:
-            if self.via_cycle and dict(zip(('R', 'F', 'T'), self.flagperm))[f] == 'T':
+            if self.via_cycle and len(f) == 1 and dict(zip(('R', 'F', 'T'), self.flagperm))[f] == 'T':
                 await self._cycle(u, op)
             elif op == 'add':
                 await self.um.track_user(self.uname(u), self.flag(f))
@@ -434,6 +444,7 @@ CLOSE_HOWS = ('eof', 'reset', 'requested')
 
 
 def _args(s):
+    s = re.sub(r'\{([^}]*)\}', lambda m: ''.join(sorted(re.findall(r'[A-Z]', m.group(1)))), s)
     return [a.strip().strip('"') for a in s.split(',')] if s.strip() else []
 
 
@@ -586,6 +597,15 @@ def directed_schedules():
             out.append(tuple(base) + (('call', 'u1', 'rem', 'R', 'Q'),))
             out.append((('failframe', n + 1),) + tuple(base))
             out.append((('call', 'u2', 'add', 'F', 'Q'), ('reply', 'u2', True, 'Q')) + tuple(base))
+    # flag combinations as arguments, held completely / partially / not at all
+    subsets = ('R', 'F', 'T', 'FR', 'RT', 'FT', 'FRT')
+    for held in subsets:
+        for arg in subsets:
+            if len(held) == 1 and len(arg) == 1:
+                continue
+            out.append((('call', 'u1', 'add', held, 'Q'), ('reply', 'u1', True, 'Q'), ('call', 'u1', 'rem', arg, 'Q')))
+            out.append((('call', 'u1', 'add', held, 'Q'), ('reply', 'u1', True, 'Q'), ('call', 'u1', 'add', arg, 'Q'),
+                        ('call', 'u1', 'rem', held, 'Q')))
     for n in (1, 2, 3):
         out.append((('failframe', n), ('call', 'u1', 'add', 'R', 'Q'), ('call', 'u2', 'add', 'F', 'Q'),
                     ('reply', 'u1', True, 'Q'), ('call', 'u1', 'rem', 'R', 'Q'), ('call', 'u2', 'rem', 'F', 'Q')))
@@ -626,7 +646,8 @@ def _classify(info, trace):
             prev = trace[i - 1] if i > 0 else {}
             if c['op'] == 'add' and prev.get('ev') == 'evt' and prev.get('st') == 'untracked' and prev.get('u') == c['u']:
                 return 'track_user:lost-between-worker-return-and-done-callback'
-            return f"{'track_user' if c['op'] == 'add' else 'untrack_user'}:call-lost"
+            combo = ':flag-combination' if len(c['f']) > 1 else ''
+            return f"{'track_user' if c['op'] == 'add' else 'untrack_user'}{combo}:call-lost"
     return f'{name}:{ev.get("ev", "?")}'
 
 
@@ -653,12 +674,19 @@ def run_schedule(sched, conc):
 def collect(chk: Check, thorough: bool):
     """schedules: dict schedule -> source label"""
     scheds: dict = {}
-    # (1) the exhaustive 1-user model: checked, and its state graph dumped for the edge cover
-    g, res = tlc.dump_graph(SPEC, 'MC_quick.cfg', parse_states=False, coverage=True, workers=1, timeout=1500)  # 1 worker: deterministic order
-    chk.add_model('UserTracking 1 user, 2 flags, 4 calls (exhaustive, graph dumped)', res)
+    # (1) the exhaustive 1-user model is checked; the state graph for the edge cover is dumped with one
+    # worker (deterministic order): from the same model in the thorough tier, from its 3-call version in quick
+    if thorough:
+        cover_cfg = 'MC_quick.cfg'
+    else:
+        cover_cfg = 'MC_cover.cfg'
+        r = tlc.model_check(SPEC, 'MC_quick.cfg', expect_actions=ALL_ACTIONS, timeout=1500)
+        chk.add_model('UserTracking 1 user, 2 reasons (all 3 flag arguments), 4 calls (exhaustive)', r)
+    g, res = tlc.dump_graph(SPEC, cover_cfg, parse_states=False, coverage=True, workers=1, timeout=1500)
+    chk.add_model(f'UserTracking 1 user, 2 reasons, {cover_cfg} (exhaustive, graph dumped)', res)
     missing = [a for a in ALL_ACTIONS if res.coverage.get(a, (0, 0))[1] == 0]
     if missing:
-        raise MachineryFailure(f'vacuity: actions never taken in MC_quick.cfg: {missing}')
+        raise MachineryFailure(f'vacuity: actions never taken in {cover_cfg}: {missing}')
     paths = tlc.path_cover(g)
     cover = {}
     for p in paths:
@@ -669,9 +697,9 @@ def collect(chk: Check, thorough: bool):
     chk.cov['cover_paths'] = len(paths)
     chk.cov['cover_schedules'] = len(cover)
     keys = sorted(cover, key=repr)
-    cap = None if thorough else 1200
+    cap = 8000 if thorough else 1200
     if cap is not None and len(keys) > cap:
-        # quick tier: every schedule with an event / timer placement or a failing write, a seeded sample of the rest
+        # every schedule with an event / timer placement or a failing write first, a seeded sample of the rest
         special = [k for k in keys if any(isinstance(x[-1], tuple) or x[0] == 'failframe' for x in k)]
         rest = [k for k in keys if k not in set(special)]
         chk.rng.shuffle(special)
@@ -719,7 +747,7 @@ def run(chk: Check, args):
     rl = tlc.run_tlc(SPEC, 'MC_live.cfg', timeout=1500)
     chk.add_model('UserTracking liveness (1 user, 3 calls, fair)', rl)
     if thorough:
-        for cfg, label in (('MC_u1.cfg', '1 user, 3 flags, 5 calls'), ('MC_u2.cfg', '2 users, 2 flags, 4 calls'),
+        for cfg, label in (('MC_u1.cfg', '1 user, 3 reasons (5 flag arguments), 4 calls'), ('MC_u2.cfg', '2 users, 2 reasons (2 flag arguments), 4 calls'),
                            ('MC_anyorder.cfg', '1 user, any ready handle may run')):
             chk.add_model(f'UserTracking {label} (exhaustive)', tlc.model_check(SPEC, cfg, timeout=3000))
 
@@ -792,7 +820,8 @@ def run(chk: Check, args):
         'RetryHappens (bounded time): an unanswered AddUser counts as failed after at most 60 s (the code waits 10 s; '
         'the wait itself is not documented), slack 1 s',
         'server behaviours per attempt: confirm exists / not-exists promptly, silence, failing write, disconnect; '
-        'late or unsolicited AddUser responses are not part of the quantifier',
+        'late or unsolicited AddUser responses are not part of the quantifier (the scripted server answers within '
+        '5 s of the request or not at all)',
         'no track/untrack calls are issued once the connection is being closed (the reference is reset by the close)',
         'a retry sent while an untrack that empties the set is queued but not yet processed is accepted '
         '(worker order = call order)',
